@@ -92,6 +92,75 @@ def inject_scenario(point, stats, nested=False):
         pr.destroy()
 
 
+def stamp_window_scenario():
+    """Kill between `redo-stamp` (which commits changed_runid/checksum on the target's record in its own transaction,
+    while the script is still running) and the recording of the build result.  Returns (stale, info)."""
+    import signal, subprocess, time as _t
+    pr = Project()
+    try:
+        pr.write("t.do", 'redo-ifchange x\ncat x >"$3"\nredo-stamp <"$3"\nif [ -e slow ]; then sleep 5; fi\n')
+        pr.write("top.do", "redo-ifchange t\ncat t\n")
+        pr.write("x", "v1\n")
+        rc, out, err = pr.run(["redo-ifchange", "top"])
+        if rc != 0 or pr.read("top") != b"v1\n":
+            return None, dict(problem="setup build failed", rc=rc)
+        pr.write("x", "v2\n")
+        pr.write("slow", "")
+        p = subprocess.Popen(["redo-ifchange", "top"], cwd=pr.root, env=clean_env(), stdout=subprocess.DEVNULL, stderr=subprocess.DEVNULL,
+                             stdin=subprocess.DEVNULL, start_new_session=True)
+        _t.sleep(1.2)
+        try:
+            os.killpg(p.pid, signal.SIGKILL)
+        except ProcessLookupError:
+            pass
+        p.wait()
+        pr.rm("slow")
+        rc2, out2, err2 = pr.run(["redo-ifchange", "top"], timeout=60)
+        t2, top2 = pr.read("t"), pr.read("top")
+        rc_ood, ood, _ = pr.run(["redo-ood"])
+        pr.write("x", "v3\n")
+        rc3, out3, err3 = pr.run(["redo-ifchange", "top"], timeout=60)
+        info = dict(recovery_rc=rc2, t_after_recovery=repr(t2), top_after_recovery=repr(top2), ood_after_recovery=ood.split(), after_next_edit=repr(pr.read("top")), rc3=rc3)
+        stale = rc2 == 0 and (t2 != b"v2\n" or top2 != b"v2\n")
+        other = rc2 != 0 or rc3 != 0 or pr.read("top") != b"v3\n"
+        return (stale, dict(info, other_problem=other))
+    finally:
+        pr.destroy()
+
+
+def stale_tmp_scenario():
+    """A killed build leaves its `$3` file behind; the next build of the target must start from an empty `$3` also when
+    the target is built from another directory than its .do file's and the script appends to `$3`."""
+    import signal, subprocess, time as _t
+    problems = []
+    for how, argv, cwd in (("from the project top", ["redo-ifchange", "gen/list"], "."), ("from the target's directory", ["redo-ifchange", "list"], "gen"),
+                           ("through a default rule in the parent directory", ["redo-ifchange", "sub/out.lst"], ".")):
+        pr = Project()
+        try:
+            body = 'echo one >>"$3"\nif [ -e %s ]; then sleep 5; fi\necho two >>"$3"\n'
+            pr.write("gen/list.do", body % "../slow")
+            pr.write("default.lst.do", body % "slow")
+            os.makedirs(pr.path("sub"), exist_ok=True)
+            pr.write("slow", "")
+            p = subprocess.Popen(argv, cwd=pr.path(cwd), env=clean_env(), stdout=subprocess.DEVNULL, stderr=subprocess.DEVNULL, stdin=subprocess.DEVNULL, start_new_session=True)
+            _t.sleep(1.0)
+            try:
+                os.killpg(p.pid, signal.SIGKILL)
+            except ProcessLookupError:
+                pass
+            p.wait()
+            pr.rm("slow")
+            rc, out, err = pr.run(argv, cwd=cwd, timeout=60)
+            tgt = "sub/out.lst" if "default" in how else "gen/list"
+            got = pr.read(tgt)
+            left = [os.path.join(dp, f) for dp, _, fs in os.walk(pr.root) for f in fs if f.endswith(".redo.tmp")]
+            if rc != 0 or got != b"one\ntwo\n" or left:
+                problems.append(dict(how=how, argv=argv, rc=rc, content=repr(got), tmp_left=left, stderr=err[-400:]))
+        finally:
+            pr.destroy()
+    return problems
+
+
 def run(ctx):
     rng = random.Random(ctx["seed"] * 37 + 10)
     viol = ctx.setdefault("violations", [])
@@ -127,6 +196,27 @@ def run(ctx):
             known_hit.append("kill between rename(tmp, target) and the recording commit (kill points %s): the recovery run says 'you modified it; skipping' for a file redo itself installed, exits 0, and the target stays stale after later edits (builder.rs record_new_state, the FIXME)" % ",".join(map(str, window)))
         cov["distribution"]["inject"] = dict(points=kmax, **stats, rename_window_hits=window)
         cov["evaluations"] += kmax
+    # (2b) a `$3` left behind by a killed build
+    if not viol:
+        probs = stale_tmp_scenario()
+        cov["distribution"]["stale_tmp_scenarios"] = 3
+        if probs:
+            p = write_replay("C10", "stale-tmp", dict(kind="impl-monitor", problems=probs, scenario="list.do / default.lst.do: echo one >>$3; (slow); echo two >>$3.  first build killed during the slow part, then built again"))
+            viol.append(Violation("C10", p, "after a killed build the next build of the target (%s) gives %s (expected 'one two'), rc %s, tmp left %r" % (probs[0]["how"], probs[0]["content"], probs[0]["rc"], probs[0]["tmp_left"])))
+    # (3) the redo-stamp window
+    if not viol:
+        stale, info = stamp_window_scenario()
+        cov["distribution"]["stamp_window"] = info
+        kf2 = [k for k in known_findings("C10") if k.get("id") == "stamp-before-record" and k.get("status") == "known"]
+        if stale is None or info.get("other_problem"):
+            p = write_replay("C10", "stamp-window", dict(kind="impl-monitor", info=info, scenario="t.do: redo-ifchange x; cat x >$3; redo-stamp <$3; (slow tail).  build top; edit x; redo-ifchange top killed during the tail; redo-ifchange top; edit x; redo-ifchange top"))
+            viol.append(Violation("C10", p, "kill after redo-stamp: recovery or the next rebuild misbehaves: %r" % info))
+        elif stale:
+            if kf2:
+                known_hit.append("kill after `redo-stamp` and before the result is recorded: the target's record already says changed in this run with the new checksum while the file is still the old one; the recovery `redo-ifchange` exits 0 with t and top stale (until the next edit) (stamp.rs commits in its own transaction)")
+            else:
+                p = write_replay("C10", "stamp-window", dict(kind="impl-monitor", info=info, scenario="t.do: redo-ifchange x; cat x >$3; redo-stamp <$3; (slow tail).  build top; edit x; redo-ifchange top killed during the tail; redo-ifchange top"))
+                viol.append(Violation("C10", p, "kill after redo-stamp and before the result is recorded: recovery exits 0 but t=%s top=%s (expected v2)" % (info["t_after_recovery"], info["top_after_recovery"])))
     cov["known_hit"] = known_hit
     cov["rule"] += "; here with kill operations inserted before 45%% of the build commands (whole tree SIGKILLed when a chosen script reaches a chosen step), and a syscall-level kill enumeration (strace inject before the K-th rename/unlink/write/pwrite64/ftruncate/fsync of every process, %d points x {whole command, nested redo-ifchange}) on a 3-target project" % len(POINTS_THOROUGH if thorough else POINTS_QUICK)
     return cov
